@@ -25,6 +25,10 @@ def make_other(kind, a, md):
     from sx.harness import _arr
     m = b.csr((_arr(data), [j for i in range(nr) for j in range(nc)], [i * nc for i in range(nr + 1)]), shape=(nr, nc))
     omd, smd = metadata_menu(md, oids, sids)
+    if kind.startswith('merge') and omd is not None:
+        # the operands' metadata need not carry the same categories
+        omd = [dict(m_, src='other') for m_ in omd]
+        smd = [dict(m_, src='other') for m_ in smd]
     t = b.Table(m, oids, sids, omd, smd, type='OTU table')
     return t, ATM(oids, sids, dense, omd, smd, 'OTU table')
 
